@@ -146,6 +146,38 @@ def nested_cases():
     return out
 
 
+def extra_forms():
+    """branches that carry only `required`; a nullable object branch written null-first; one array property constrained by two branches"""
+    out = []
+    base = {"type": "object", "properties": {"id": {"type": "string", "minLength": 1}, "label": {"type": "string"}, "size": {"type": "integer"}}, "required": ["id"]}
+
+    def wrap(comb, lst, defs=None):
+        r = {"type": "object", "properties": {"u": {comb: lst}, "l": {"type": "array", "items": {comb: lst}}}, "required": ["u"]}
+        if defs:
+            r["$defs"] = defs
+        return r
+
+    def docs_of(goods, bads):
+        ds = [{"doc": {"u": g}, "cls": "all-branches", "path": ("u",)} for g in goods] + [{"doc": {"u": b}, "cls": "branch-violated", "path": ("u",)} for b in bads]
+        ds += [{"doc": {"u": goods[0], "l": [goods[0], b]}, "cls": "branch-violated-item", "path": ("l", 1)} for b in bads]
+        return ds
+    k = 0
+    for lst, defs, goods, bads, tag in (
+        ([{"$ref": "#/$defs/Base"}, {"required": ["label"]}], {"Base": base}, [{"id": "1", "label": "x"}], [{"id": "1"}, {"label": "x"}, {}], "required-only-branch"),
+        ([{"$ref": "#/$defs/Base"}, {"required": ["label", "size"]}, {"type": "object", "properties": {"extra": {"type": "boolean"}}}], {"Base": base},
+         [{"id": "1", "label": "x", "size": 2}], [{"id": "1", "label": "x"}, {"id": "1", "size": 2}], "required-only-branch-3"),
+        ([{"type": ["null", "object"], "properties": {"x": {"type": "integer", "minimum": 1}}, "required": ["x"]}, {"type": "object", "properties": {"y": {"type": "string", "minLength": 2}}}], None,
+         [{"x": 1, "y": "ab"}, {"x": 2}], [{}, {"y": "ab"}, {"x": 0, "y": "ab"}, {"x": 1, "y": "a"}], "nullable-object-first"),
+        ([{"type": "object", "properties": {"tags": {"type": "array", "items": {"type": "string"}, "minItems": 2}}}, {"type": "object", "properties": {"tags": {"type": "array", "items": {"type": "string"}, "maxItems": 4}}}], None,
+         [{"tags": ["a", "b"]}, {"tags": ["a", "b", "c", "d"]}, {}], [{"tags": ["a"]}, {"tags": ["a", "b", "c", "d", "e"]}], "shared-array-property"),
+    ):
+        k += 1
+        out.append(Case("c11x%d" % k, wrap("allOf", lst, defs), docs_of(goods, bads), fam="allOf/" + tag))
+    anyl = [{"type": ["null", "object"], "properties": {"x": {"type": "integer", "minimum": 1}}, "required": ["x"]}, {"type": "object", "properties": {"y": {"type": "string", "minLength": 2}}, "required": ["y"]}]
+    out.append(Case("c11x9", wrap("anyOf", anyl), docs_of([{"x": 1}, {"y": "ab"}], [{}, {"x": 0}, {"y": "a"}]), fam="anyOf/nullable-object-first"))
+    return out
+
+
 def anyof_cases(ctx):
     out = []
     k = 0
@@ -236,7 +268,7 @@ def multi_file_cases():
 def run(ctx):
     ctx.proof_step(PROPS_FILE)
     mf = multi_file_cases()
-    cases = allof_cases(ctx) + anyof_cases(ctx) + nested_cases()
+    cases = allof_cases(ctx) + anyof_cases(ctx) + nested_cases() + extra_forms()
     run_cases(ctx, cases + mf, "c11")
     nmf = 0
     for c in mf:
